@@ -185,7 +185,7 @@ func floor(v any) (any, error) {
 
 func integerDivide(x, y any) (any, error) {
 	if xf, yf, ok := toFloatPair(x, y); ok {
-		r := math.Floor(xf / yf)
+		r := math.Trunc(xf / yf)
 
 		if math.IsInf(r, 0) {
 			return nil, ErrInfinity
